@@ -6,7 +6,8 @@
 (*   history{syncpoints:[{len,h,sync,valid}...]}   logical content after every op  *)
 (*   ( image{kind,k,j,len,upto,f,raw}  reopen{outcome,content,extent}              *)
 (*   | resume{k,open,mode,c0,ids0,new_ids,len0,len1,added,old0,old1,live,again}   *)
-(*   | regen{api,cap,truncated,pos,writes,open,got} )*                             *)
+(*   | regen{api,cap,truncated,pos,writes,open,got}                                *)
+(*   | script{reader,size,base,seed,steps:[{a,n,ok,val,pos,rem}]} )*               *)
 (* outcome = ok | err | signal | timeout | panic; only ok / err have an action.    *)
 EXTENDS DurableFile, TraceIO, Known_DurableFile
 
@@ -27,6 +28,7 @@ Step(e) ==
     \/ e.op = "reopen"  /\ subj.framing = "raw"    /\ RawReopen(e.outcome, e.content)
     \/ e.op = "resume"  /\ Resume(e)
     \/ e.op = "regen"   /\ Regen(e)
+    \/ e.op = "script"  /\ Script(e)
 
 TraceNext ==
     /\ l <= Len(Rec)
